@@ -36,12 +36,22 @@ def strip_order_keeping(it):
     return it, enum
 
 
+def _is_location(v):
+    while isinstance(v, (ast.Attribute, ast.Subscript)):
+        if isinstance(v, ast.Subscript) and not isinstance(v.slice, (ast.Name, ast.Constant, ast.Attribute)):
+            return False
+        v = v.value
+    return isinstance(v, ast.Name)
+
+
 class Expander(object):
-    def __init__(self, f, g=None, subst=None, depth=8):
+    def __init__(self, f, g=None, subst=None, depth=8, only_locations=False, inline=None):
+        self.inline = inline              # Program: calls of expression-like private helpers are replaced by their result expression
         self.f = f
         self.g = g or build_cfg(f)
         self.subst = subst or {}          # parameter name -> AST (when f is a helper inlined into a caller)
         self.max_depth = depth
+        self.only_locations = only_locations   # expand only pure aliases of a location (x = a.b, x = a[k], x = y), never calls
 
     # ------------------------------------------------------------------ public
     def expand(self, expr, node=None, depth=0):
@@ -56,6 +66,10 @@ class Expander(object):
     def _x(self, e, node, depth, busy):
         if isinstance(e, ast.Name) and isinstance(e.ctx, ast.Load):
             return self._name(e, node, depth, busy)
+        if self.inline is not None and isinstance(e, ast.Call) and depth <= self.max_depth:
+            r = self._inline_call(e, node, depth, busy)
+            if r is not None:
+                return r
         if isinstance(e, (ast.ListComp, ast.SetComp, ast.GeneratorExp, ast.DictComp, ast.Lambda)):
             bound = set()
             for gen in getattr(e, "generators", []):
@@ -64,6 +78,66 @@ class Expander(object):
                         bound.add(t.id)
             return self._children(e, node, depth, busy | bound)
         return self._children(e, node, depth, busy)
+
+    def _inline_call(self, c, node, depth, busy):
+        """result expression of a call to an expression-like private helper (module level function or static method of the
+        repository whose body is a chain of `if t: return a` ... `return b`), with the arguments substituted."""
+        from .model import FuncInfo, _func_local_imports
+        prog = self.inline
+        try:
+            tgt = prog.resolve_expr_to_symbol(self.f.module, c.func, local_imports=_func_local_imports(prog, self.f))
+        except Exception:
+            tgt = None
+        if tgt is None and isinstance(c.func, ast.Attribute) and isinstance(c.func.value, ast.Name) and self.f.cls is not None \
+                and self.f.params and c.func.value.id in (self.f.params[0], self.f.cls.name):
+            m = self.f.cls.lookup_method(c.func.attr)
+            if m is not None and m.kind == "static":
+                tgt = m
+        if not isinstance(tgt, FuncInfo) or tgt.kind not in ("function", "static") or not tgt.name.startswith("_") or tgt.is_generator:
+            return None
+        expr = expression_of(tgt)
+        if expr is None:
+            return None
+        if any(isinstance(a, ast.Starred) for a in c.args) or any(k.arg is None for k in c.keywords) or tgt.vararg or tgt.kwarg:
+            return None
+        sub = {}
+        for i, a in enumerate(c.args):
+            if i >= len(tgt.params):
+                return None
+            sub[tgt.params[i]] = self._x(copy.deepcopy(a), node, depth + 1, busy)
+        for k in c.keywords:
+            sub[k.arg] = self._x(copy.deepcopy(k.value), node, depth + 1, busy)
+        for p0 in tgt.params + tgt.kwonly:
+            if p0 not in sub:
+                if p0 in tgt.defaults:
+                    sub[p0] = copy.deepcopy(tgt.defaults[p0])
+                else:
+                    return None
+
+        class S(ast.NodeTransformer):
+            def visit_Name(self, n):
+                if isinstance(n.ctx, ast.Load) and n.id in sub:
+                    return copy.deepcopy(sub[n.id])
+                return n
+        out = S().visit(copy.deepcopy(expr))
+        out = _fold_none_tests(out)
+        # nested helper calls inside the inlined body
+        hx = Expander(tgt, subst={}, inline=prog, depth=self.max_depth)
+        return hx._inline_nested(out, depth + 1)
+
+    def _inline_nested(self, e, depth):
+        if depth > self.max_depth:
+            return e
+        for field, val in ast.iter_fields(e):
+            if isinstance(val, ast.AST):
+                setattr(e, field, self._inline_nested(val, depth))
+            elif isinstance(val, list):
+                setattr(e, field, [self._inline_nested(v, depth) if isinstance(v, ast.AST) else v for v in val])
+        if isinstance(e, ast.Call):
+            r = self._inline_call(e, None, depth, set())
+            if r is not None:
+                return r
+        return e
 
     def _children(self, e, node, depth, busy):
         for field, val in ast.iter_fields(e):
@@ -96,6 +170,8 @@ class Expander(object):
                 if isinstance(v, (ast.List, ast.Dict, ast.Set)) or \
                         (isinstance(v, ast.Call) and isinstance(v.func, ast.Name) and v.func.id in ("list", "dict", "set") and not v.args):
                     return e        # a container that is filled by mutation: the name is the state
+                if self.only_locations and not _is_location(v):
+                    return e
                 return self._x(copy.deepcopy(st.value), d, depth + 1, busy | set([name]))
             if isinstance(t, (ast.Tuple, ast.List)):
                 for i, el in enumerate(t.elts):
@@ -107,6 +183,8 @@ class Expander(object):
                         return ast.Subscript(value=base, slice=ast.Constant(value=i), ctx=ast.Load())
             return e
         if d.kind == "for":
+            if self.only_locations:
+                return e
             it, enum = strip_order_keeping(st.iter)
             itx = self._x(copy.deepcopy(it), d, depth + 1, busy)      # the iterable sees the binding from before the loop
             t = st.target
@@ -124,6 +202,91 @@ class Expander(object):
                                 return _each(itx, j)
             return e
         return e
+
+
+def expression_of(tgt):
+    """the result of an expression-like function as one expression (nested conditional expressions), or None.
+    expression-like: after the docstring only single-assignment locals, `if t: return a` (no else / else: return) and a final return."""
+    cache = expression_of.__dict__.setdefault("cache", {})
+    key = (id(tgt.node))
+    if key in cache:
+        return cache[key]
+    body = [st for st in tgt.node.body if not (isinstance(st, ast.Expr) and isinstance(st.value, ast.Constant))]
+    env = {}
+
+    def subst_locals(e):
+        class L(ast.NodeTransformer):
+            def visit_Name(self, n):
+                if isinstance(n.ctx, ast.Load) and n.id in env:
+                    return copy.deepcopy(env[n.id])
+                return n
+        return L().visit(copy.deepcopy(e))
+
+    def build(stmts):
+        if not stmts:
+            return ast.Constant(value=None)
+        st = stmts[0]
+        if isinstance(st, ast.Return):
+            return subst_locals(st.value) if st.value is not None else ast.Constant(value=None)
+        if isinstance(st, ast.Assign) and len(st.targets) == 1 and isinstance(st.targets[0], ast.Name) and st.targets[0].id not in env \
+                and st.targets[0].id not in tgt.params:
+            env[st.targets[0].id] = subst_locals(st.value)
+            return build(stmts[1:])
+        if isinstance(st, ast.If):
+            then = build(list(st.body))
+            if then is None or not _ends_with_return(st.body):
+                return None
+            rest = build(list(st.orelse) + stmts[1:]) if not st.orelse or _ends_with_return(st.orelse) else None
+            if st.orelse and not _ends_with_return(st.orelse):
+                return None
+            if rest is None:
+                return None
+            return ast.IfExp(test=subst_locals(st.test), body=then, orelse=rest)
+        return None
+    try:
+        r = build(body)
+    except Exception:
+        r = None
+    cache[key] = r
+    return r
+
+
+def _ends_with_return(stmts):
+    return bool(stmts) and isinstance(stmts[-1], ast.Return) and all(isinstance(s0, (ast.Return, ast.Assign)) for s0 in stmts)
+
+
+def _fold_none_tests(e):
+    """`None is None` -> True etc. inside conditional expressions; conditional expressions with a constant test are reduced."""
+    class F(ast.NodeTransformer):
+        def visit_IfExp(self, n):
+            self.generic_visit(n)
+            t = n.test
+            v = _const_truth(t)
+            if v is True:
+                return n.body
+            if v is False:
+                return n.orelse
+            return n
+    return F().visit(e)
+
+
+def _const_truth(t):
+    if isinstance(t, ast.Constant):
+        return bool(t.value)
+    if isinstance(t, ast.UnaryOp) and isinstance(t.op, ast.Not):
+        v = _const_truth(t.operand)
+        return None if v is None else (not v)
+    if isinstance(t, ast.Compare) and len(t.ops) == 1 and isinstance(t.left, ast.Constant) and isinstance(t.comparators[0], ast.Constant):
+        a, b = t.left.value, t.comparators[0].value
+        if isinstance(t.ops[0], ast.Is):
+            return a is b
+        if isinstance(t.ops[0], ast.IsNot):
+            return a is not b
+        if isinstance(t.ops[0], ast.Eq):
+            return a == b
+        if isinstance(t.ops[0], ast.NotEq):
+            return a != b
+    return None
 
 
 def _is_private_helper_call(f, c):
